@@ -44,7 +44,17 @@ ManyToOne(i, k, off, form) ==
   /\ out'  = [j \in 1..k |-> Act(PoseAt(i + j - 1), Pt(PointAt(off + 1)))]
   /\ outR' = [j \in 1..k |-> Act(Rot(PoseAt(i + j - 1)), Pt(PointAt(off + 1)))]
 
+\* the laws of the statement as call forms: (X*Y)*p, X*(Y*p) and X.inv()*(X*p), each through every route
+ComposeApply(i, k, off, mode) ==
+  /\ call.op = "none"
+  /\ LET a == PoseAt(i)  b == PoseAt(k)  p == Pt(PointAt(off + 1)) IN
+     /\ call' = [op |-> "compose", mode |-> mode, a |-> Hom(a), b |-> Hom(b), pts |-> << PointAt(off + 1) >>, form |-> "array"]
+     /\ out'  = << IF mode = "Xinv(Xp)" THEN p ELSE Act(Compose(a, b), p) >>
+     /\ outR' = << IF mode = "Xinv(Xp)" THEN p ELSE Act(Rot(Compose(a, b)), p) >>
+
 Next ==
+  \/ \E i \in 1..NP : \E k \in 1..NP : \E off \in 0..1 : \E mode \in {"(XY)p", "X(Yp)", "Xinv(Xp)"} :
+        ComposeApply(i, k, off, mode)
   \/ \E i \in 1..NP : \E N \in 1..MaxN : \E off \in 0..2 : \E f \in Forms \cup {"matrix"} : OneToMany(i, N, off, f)
   \/ \E i \in 1..NP : \E k \in 2..MaxK : \E off \in 0..2 : \E f \in Forms : ManyToOne(i, k, off, f)
 
